@@ -1,7 +1,7 @@
 import P2.Model.TxLts
 import P2.Drv.Util
 /-
-C10 model driver.  Request: `ctl STEP*` or `free STEP*`; a STEP is `y` (let the runtime run the spawned tasks)
+C10 model driver.  Request: `ctl STEP*` (in-memory store), `ctlf STEP*` (file database, 4 connections) or `free STEP*`; a STEP is `y` (let the runtime run the spawned tasks)
 `yb` / `ya` (verif hook: the clean-up task of a dropped permit is parked before it takes the transaction /
 after its rollback but before `drop(permit)`) or `T:STMT` for task number T with STMT one of
   B        begin (answers `blk` while the permit is taken or others are queued before it; repeat the step later)
@@ -9,6 +9,9 @@ after its rollback but before `drop(permit)`) or `T:STMT` for task number T with
   r        dirty read: number of rows visible inside the transaction
   C R      commit / rollback            D  drop(permit)      Q  `?` early return      P  panic in the body
   X        the task's future is dropped between two statements
+  e / fN   a task that shares the open transaction (without holding the permit) enters a `tx()` query and stays
+           inside it (`e`), later writes row N and returns (`fN`); while it is inside, `ya` / `y` answer `blk`:
+           the clean-up task waits for the slot lock
   S/K      statement S (B, wN, bN, C, R) dropped after K polls without having completed; for C with K ≥ 1 a
            trailing `+` / `-` says whether SQLite turned out to have committed
 Answer: `ctl`: one observation per step, then `| db=` the committed rows `task.n` in order; `free`: only the rows.
@@ -22,6 +25,8 @@ inductive Stmt where
   | ya   -- clean-up task has rolled back, parked before `drop(permit)`: `rbTake`
   | begin (t : Nat) (cancel : Option Nat)
   | write (t n : Nat) (bad : Bool) (cancel : Option Nat)
+  | enter (h : Nat)            -- a task sharing the open transaction starts a `tx()` query and stays inside it
+  | finish (h n : Nat)         -- … that query writes row n and returns
   | read (t : Nat)
   | commit (t : Nat) (cancel : Option (Nat × Bool))
   | rollback (t : Nat) (cancel : Option Nat)
@@ -45,6 +50,8 @@ def parseStmt (tok : String) : Option Stmt :=
       | none => some (.begin t none)
       | some k => (k.toNat?).map (fun k => .begin t (some k))
     | ['r'] => if canc.isNone then some (.read t) else none
+    | ['e'] => if canc.isNone then some (.enter t) else none
+    | 'f' :: ds => if canc.isNone then ((String.ofList ds).toNat?).map (fun n => .finish t n) else none
     | ['C'] => match canc with
       | none => some (.commit t none)
       | some k =>
@@ -76,7 +83,7 @@ def parseStmt (tok : String) : Option Stmt :=
 def acts (s : St) (as : List Act) : Option St := runActs s as
 
 def isInTx : PC → Bool
-  | .inTx _ => true
+  | .inTx => true
   | _ => false
 
 /-- One harness step: new state and observation. -/
@@ -84,15 +91,19 @@ def stepStmt (s : St) : Stmt → St × String
   | .yb => (s, "ok")
   | .ya =>
     match s.spawn with
-    | .pending => match stepFn s .rbTake with
-      | some s' => (s', "ok")
-      | none => (s, "stuck")
+    | .pending =>
+      if s.lock.isSome then (s, "blk")   -- the clean-up task waits for the query in flight
+      else match stepFn s .rbTake with
+        | some s' => (s', "ok")
+        | none => (s, "stuck")
     | _ => (s, "ok")
   | .y =>
     match s.spawn with
-    | .pending => match acts s [.rbTake, .rbRelease] with
-      | some s' => (s', "ok")
-      | none => (s, "stuck")
+    | .pending =>
+      if s.lock.isSome then (s, "blk")
+      else match acts s [.rbTake, .rbRelease] with
+        | some s' => (s', "ok")
+        | none => (s, "stuck")
     | .releasing => match acts s [.rbRelease] with
       | some s' => (s', "ok")
       | none => (s, "stuck")
@@ -134,18 +145,29 @@ def stepStmt (s : St) : Stmt → St × String
       | _ => (s, "bad-step")
   | .write t n bad none =>
     if isInTx (s.pc t) then
-      match stepFn s (.write t n bad) with
+      match acts s [.txEnter t, .txExit t n bad] with
       | some s' => (s', "ok")
       | none => (s, "stuck")
     else if s.slot.isNone then (s, "E:notx") else (s, "misuse")
+  | .enter h =>
+    match s.slot, s.lock with
+    | none, _ => (s, "E:notx")
+    | some _, some _ => (s, "blk")
+    | some _, none => match stepFn s (.txEnter h) with
+      | some s' => (s', "ok")
+      | none => (s, "stuck")
+  | .finish h n =>
+    match stepFn s (.txExit h n false) with
+    | some s' => (s', "ok")
+    | none => (s, "stuck")
   | .write t _ _ (some _) =>
     match stepFn s (.dropPermit t) with
     | some s' => (s', "cx")
     | none => (s, "stuck")
   | .read t =>
     match s.pc t, s.slot with
-    | .inTx _, some buf => (s, toString (s.db.length + buf.length))
-    | .inTx _, none => (s, "stuck")
+    | .inTx, some buf => (s, toString (s.db.length + buf.length))
+    | .inTx, none => (s, "stuck")
     | _, none => (s, "E:notx")
     | _, some _ => (s, "misuse")
   | .commit t none =>
@@ -187,7 +209,7 @@ def stepStmt (s : St) : Stmt → St × String
     else (s, word)   -- a task that ends / panics without holding a permit changes nothing
   | .cancelTask t =>
     match s.pc t with
-    | .inTx _ => match stepFn s (.dropPermit t) with
+    | .inTx => match stepFn s (.dropPermit t) with
       | some s' => (s', "cx")
       | none => (s, "stuck")
     | .waiting => match stepFn s (.cancelWait t) with
@@ -205,14 +227,14 @@ def dbStr (db : List Write) : String :=
 def handle (line : String) : String :=
   match tokens line with
   | mode :: steps =>
-    if mode != "ctl" && mode != "free" then "bad-op" else
+    if mode != "ctl" && mode != "ctlf" && mode != "free" then "bad-op" else
     match steps.mapM parseStmt with
     | none => "bad-op"
     | some stmts =>
       let (s, obs) := stmts.foldl (fun (acc : St × List String) st =>
         let (s', o) := stepStmt acc.1 st
         (s', o :: acc.2)) (St.init, [])
-      if mode = "ctl" then " ".intercalate obs.reverse ++ " | " ++ dbStr s.db else dbStr s.db
+      if mode != "free" then " ".intercalate obs.reverse ++ " | " ++ dbStr s.db else dbStr s.db
   | _ => "bad-op"
 
 def main : IO Unit := runMain handle
